@@ -61,6 +61,9 @@ class Profile:
         self.fixed_durations_only = False
         self.dur_fluents_grow = True
         self.decimal_only = False  # only rationals with finite decimal expansions
+        self.bounded_p = None  # probability that a numeric fluent type carries bounds (None: 0.6 int / 0.5 real)
+        self.zero_bound_p = 0.25  # ... that a bounded type has 0 as an endpoint
+        self.self_update_p = 0.25  # ... that a numeric assignment is  f := f +/- c
         for k, v in kw.items():
             if not hasattr(self, k):
                 raise AttributeError(k)
@@ -141,9 +144,12 @@ class Gen:
 
     def num_type(self, kind, allow_unbounded=True):
         if kind == "int":
-            if self.p.bounded and self.b(0.6):
+            if self.p.bounded and self.b(0.6 if self.p.bounded_p is None else self.p.bounded_p):
                 lo = self.i(-2, 1)
                 hi = lo + self.i(1, 5)
+                if self.b(self.p.zero_bound_p):
+                    # zero as an endpoint (the falsy corner value of a bound)
+                    lo, hi = self.pick([(-2, 0), (-1, 0), (0, 1), (0, 3), (-3, 0)])
                 m = self.i(0, 5)
                 if m == 0 and allow_unbounded:
                     return ["int", lo, None]
@@ -151,10 +157,14 @@ class Gen:
                     return ["int", None, hi]
                 return ["int", lo, hi]
             return ["int", None, None]
-        if self.p.bounded and self.b(0.5):
+        if self.p.bounded and self.b(0.5 if self.p.bounded_p is None else self.p.bounded_p):
             lo = self.i(-2, 1)
             hi = lo + self.i(1, 5)
             m = self.i(0, 5)
+            if self.b(self.p.zero_bound_p):
+                lo, hi = self.pick([(-2, 0), (-1, 0), (0, 1), (0, 3)])
+                if m >= 2:
+                    return ["real", str(lo), str(hi)]
             if m == 0:
                 return ["real", str(lo), None]
             if m == 1:
@@ -521,6 +531,9 @@ class Gen:
         else:
             if kind != "assign":
                 val = ["i", self.i(1, 2)] if self.b(0.6) else self.num_expr(vsc, 1, want_int=(t[0] == "int"))
+            elif self.p.fluent_values and self.p.arith and self.b(self.p.self_update_p):
+                # the idiomatic numeric update  f := f +/- c  (reads its own target; steps over bounds)
+                val = [self.pick(["+", "+", "-"]), target, ["i", self.i(1, 2)]]
             elif self.b(0.5):
                 val = self.const_of(t)
             else:
@@ -586,11 +599,18 @@ class Gen:
                     init.append([["fl", f["name"]], v])
         return init
 
+    def traj_arg(self, scope):
+        # mostly literals: constraints whose arguments single actions can switch on and off
+        if self.b(0.6):
+            a = self.bool_atom(scope, 0)
+            return ["not", a] if (self.p.negation and self.b(0.3)) else a
+        return self.bool_expr(scope, 1)
+
     def gen_traj(self, scope):
         k = self.pick(["always", "sometime", "amo", "sb", "sa"])
         if k in ("sb", "sa"):
-            return [k, self.bool_expr(scope, 1), self.bool_expr(scope, 1)]
-        return [k, self.bool_expr(scope, 1)]
+            return [k, self.traj_arg(scope), self.traj_arg(scope)]
+        return [k, self.traj_arg(scope)]
 
     def problem(self) -> dict:
         self.gen_types()
